@@ -319,6 +319,7 @@ type reqSpec struct {
 	path   string
 	plan   *reqPlan
 	hdr    map[string]string
+	cancelAfter time.Duration // > 0: the client goes away (request context cancelled) after this long
 }
 
 // newRequest builds the request a net/http server would hand to the handler.
@@ -340,6 +341,11 @@ func (h *lbHarness) newRequest(spec reqSpec) (*http.Request, int) {
 		p = "/"
 	}
 	ctx := context.WithValue(context.Background(), http.ServerContextKey, &http.Server{})
+	if spec.cancelAfter > 0 {
+		var cancel context.CancelFunc
+		ctx, cancel = context.WithCancel(ctx)
+		time.AfterFunc(spec.cancelAfter, cancel)
+	}
 	r, err := http.NewRequestWithContext(ctx, m, "http://helios.test"+p, nil)
 	if err != nil {
 		panic(err)
